@@ -32,6 +32,15 @@ CHECKS["C13"] = dict(
     text="Exhaustive over the MC_Rel grid (5 units x values x layout parts x 5 video-size combinations x relativize x fit x 3 writers, plus origins/extents around the 90/95 clamp), each case replayed at every level the writer emits; random values beyond. Written lengths are tokenised by the harness and judged by TLC with exact rationals (|printed - exact| <= 1/200). Two open known findings (DFXP language-level layouts) are re-validated against the requirement with exactly that deviation enabled.",
     design="4 C13")
 
+CHECKS["C01"] = dict(
+    technique="TLA+ spec TimeCodes.tla: Denote (exact BigNat reading of every timestamp grammar) is sanity-checked by TLC on all boundary spellings (MC_TimeCodes) and judges the start/end of every caption the five readers return on generated documents (Trace_TimeCodes)",
+    text="Exhaustive over the boundary spelling sets of MC_TimeCodes (hours incl. 24/99/999, carries, missing/short/long fractions, frames, offset metrics, MicroDVD frames x fps, SAMI syncs), each spelling read by the real reader as begin, end and begin+dur; random multi-cue documents with spellings up to 1000 h and reader options beyond. Expected instants are computed by TLC in exact arithmetic from the spelling alone.",
+    design="4 C01")
+CHECKS["C02"] = dict(
+    technique="TLA+ spec TimeCodes.tla (writer side): TLC checks a formatter design model and the SAMI sync state machine against the requirement (MC_Write, MC_SamiSync) and judges the timestamp fields tokenised from the output of seven writers by independent scanners (Trace_TimeCodes)",
+    text="Exhaustive over the carry grid (every ms/s/min/h/24 h boundary +-1 us, integer and SCC-style thirds of a microsecond) for seven writers, and over all SAMI cue lists of <= 3 cues on a millisecond grid containing 0; random sets beyond (merge runs, WebVTT multi-layout splits, several languages). Written fields are read off by scanners that are not pycaption's and judged by TLC in exact arithmetic, cue structure included.",
+    design="4 C02")
+
 NOT_YET = {}
 
 
